@@ -177,6 +177,8 @@ class LazyObj(dict):
         if p is not None:
             return True if p["bit"] is None else self._env.bit(p["bit"])
         x = self._d.get("extra")
+        if x is not None and isinstance(k, str) and not _is_symbolic(k) and not k.startswith(EXTRA_PREFIX):
+            return False  # the lemma's precondition fixes the prefix of the undeclared name
         if x is not None and self._env.bit(x["bit"]):
             if _is_symbolic(k):
                 for name in self._d["props"]:
@@ -252,6 +254,9 @@ class LazyObj(dict):
 
 def _is_symbolic(x):
     return type(x).__module__.startswith("crosshair")
+
+
+EXTRA_PREFIX = "x-"
 
 
 class Env:
